@@ -352,6 +352,12 @@ def isoTail (v : Int) (cap len : Nat) : List Nat :=
     let l2 := l1 + a
     List.replicate (t + a) 0 ++ padCodewords ((full - l2) / 8) ++ List.replicate (cap - full) 0
 
+/-- trigger of known finding D1: not M1/M3, the terminated stream is already codeword-aligned and
+    shorter than the capacity -/
+def d1Trigger (v : Int) (cap len : Nat) : Bool :=
+  let l1 := len + min (cap - len) (terminatorLen v)
+  !fourBitFinal v && l1 % 8 == 0 && l1 < cap
+
 /-- the deviation of pinned segno recorded as known finding D1 (write_padding_bits appends a whole
     zero codeword when the terminated stream is already codeword-aligned) -/
 def d1Tail (v : Int) (cap len : Nat) : List Nat :=
